@@ -61,7 +61,10 @@ LabelOf(X, cs) == IF cs.state = "elected" THEN (IF cs.pend /\ X.method = "wigm" 
                   ELSE IF cs.state = "hopeful" THEN "Hopeful" ELSE "Defeated"
 FigOf(X, cs) == IF X.method = "qpq" THEN cs.quot ELSE cs.vote
 (* every eligible candidate appears exactly once, under the label of its recorded status, with its recorded figure *)
-BlockOK(X, a, b) ==
+(* F20: a defeated candidate whose tally is zero only within the guarded tolerance is listed in the zero group, *)
+(* which prints the constant zero instead of its tally                                                         *)
+SliverGroup(X, cs, line) == X.method # "qpq" /\ cs.state = "defeated" /\ cs.zeq /\ ~cs.z /\ line.fig = X.zero
+BlockOKx(X, a, b, sliverok) ==
   /\ b.msg = a.msg
   /\ (ListsCands(X, a) =>
         \A i \in 1 .. Len(X.ecids) :
@@ -70,12 +73,15 @@ BlockOK(X, a, b) ==
            /\ \E j \in 1 .. Len(b.cand) :
                 /\ X.name[c] \in {b.cand[j].names[n] : n \in 1 .. Len(b.cand[j].names)}
                 /\ b.cand[j].label = LabelOf(X, cs)
-                /\ b.cand[j].fig = FigOf(X, cs))
+                /\ (b.cand[j].fig = FigOf(X, cs) \/ (sliverok /\ SliverGroup(X, cs, b.cand[j]))))
   /\ (b.quota # "" => b.quota = a.quota)
+BlockOK(X, a, b) == BlockOKx(X, a, b, FALSE)
 ReportFails(X) ==
   LET idx == ShownIdx(X) IN
   (IF Len(X.report) = Len(idx) THEN {} ELSE {<<"report_blocks", Len(X.report)>>}) \cup
-  {<<"report_block", idx[j]>> : j \in {j \in 1 .. Len(idx) : j <= Len(X.report) /\ ~BlockOK(X, X.acts[idx[j]], X.report[j])}}
+  {<<"report_block", idx[j]>> : j \in {j \in 1 .. Len(idx) : j <= Len(X.report) /\ ~BlockOKx(X, X.acts[idx[j]], X.report[j], TRUE)}} \cup
+  {<<"KNOWN_F20", idx[j]>> : j \in {j \in 1 .. Len(idx) : j <= Len(X.report) /\ BlockOKx(X, X.acts[idx[j]], X.report[j], TRUE)
+                                                                              /\ ~BlockOK(X, X.acts[idx[j]], X.report[j])}}
 
 RenderFails(X) == DumpFails(X) \cup JsonFails(X) \cup ReportFails(X)
 =============================================================================
